@@ -60,8 +60,9 @@ Theorem C12_response_observers : forall r,
 Proof. exact resp_observers_ok. Qed.
 Print Assumptions C12_response_observers.
 
-(* tie to the current source tree (Gen_Sinks.v is regenerated on every run): over EVERY logging call, raise and
-   __repr__/__str__ of EVERY module of the scrapli package (the anchored files, the files between them and the
+(* tie to the current source tree (Gen_Sinks.v is regenerated on every run): over EVERY logging call, raise,
+   __repr__/__str__ and in-place store into a container that a __repr__/__str__ prints by reference (the user's
+   transport_options dict: rows of kind SStore) of EVERY module of the scrapli package (the anchored files, the files between them and the
    credentials, scrapli/response.py, helper.py, factory.py, ...), no secret-carrying identifier reaches the message
    except under the redacted / hidden_input guard.
    The full statement is FALSE of the unchanged tree (known finding C12-response-hidden-input: Response.channel_input
@@ -88,7 +89,7 @@ Print Assumptions C12_sinks_guarded_meaning.
 (* the extraction is not vacuous: the table is the size the translator says, it sees the secrets arrive (guarded)
    at the write record and at the interact record, it sees the joined interact inputs arrive at the Response objects'
    sinks (the finding's region is inhabited and raise_for_status of Response / MultiResponse are rows outside it),
-   and it contains the three kinds of sink *)
+   and it contains the three kinds of sink and in-place stores into objects some __repr__ shows *)
 Example C12_sinks_nonvacuous :
   length gen_sinks = gen_nsinks /\ (200 <= gen_nsinks)%nat /\
   func_in "BaseChannel.write" (secret_sinks gen_sinks) = true /\
@@ -100,6 +101,7 @@ Example C12_sinks_nonvacuous :
   func_in "Response.raise_for_status" (outside known_region gen_sinks) = true /\
   func_in "MultiResponse.raise_for_status" (outside known_region gen_sinks) = true /\
   func_in "SystemTransport.write" (outside known_region gen_sinks) = true /\
-  (5 <= count_kind SRepr gen_sinks)%nat /\ (50 <= count_kind SRaise gen_sinks)%nat /\ (50 <= count_kind SLog gen_sinks)%nat.
+  (5 <= count_kind SRepr gen_sinks)%nat /\ (50 <= count_kind SRaise gen_sinks)%nat /\ (50 <= count_kind SLog gen_sinks)%nat /\
+  (1 <= count_kind SStore gen_sinks)%nat.
 Proof. vm_compute. repeat split; repeat constructor. Qed.
 Print Assumptions C12_sinks_nonvacuous.
